@@ -26,6 +26,12 @@ def _wake():
     pass
 
 
+def _task_factory(loop, coro, **kw):
+    task = asyncio.Task(coro, loop=loop, **kw)
+    loop.tasks.append(task)
+    return task
+
+
 class _Selector:
     def __init__(self, loop):
         self._loop = loop
@@ -62,8 +68,11 @@ class SimLoop(asyncio.BaseEventLoop):
         # (a blocked or descheduled process: its sockets buffer, its timers fire late, in their original order)
         self.stalls = {}
         self.owner_of = None  # callable(handle) -> owner key or None
+        self.owner_of_context = None  # callable(contextvars.Context) -> owner key or None
         self.postponed = 0
         self._parked = {}  # owner -> runnable handles held back while it is stalled
+        self.tasks = []  # every task created on this loop (runs are short): to find exceptions nobody retrieved
+        self.set_task_factory(_task_factory)
         self.on_postpone = None
         self._postpone_seq = 0
 
@@ -97,7 +106,8 @@ class SimLoop(asyncio.BaseEventLoop):
 
     def _postpone_stalled(self):
         now = self._now
-        for o in [o for o, u in self.stalls.items() if u <= now]:
+        # (the same window in which the wake-up timer of the stall counts as due)
+        for o in [o for o, u in self.stalls.items() if u < now + self._clock_resolution]:
             del self.stalls[o]
             # what was runnable when the stall began runs first, in its original order
             for h in self._parked.pop(o, []):
@@ -189,6 +199,16 @@ class SimLoop(asyncio.BaseEventLoop):
         await waiter
         return transport, protocol
 
+    def unretrieved_task_exceptions(self):
+        """Tasks that finished with an exception nobody looked at: asyncio reports them through the loop's exception
+        handler ('Task exception was never retrieved') when the task object is collected."""
+        res = []
+        for t in self.tasks:
+            if t.done() and not t.cancelled() and getattr(t, "_log_traceback", False):
+                owner = self.owner_of_context(t.get_context()) if self.owner_of_context is not None else None
+                res.append((owner, type(t.exception()).__name__, getattr(t.get_coro(), "__qualname__", "?")))
+        return res
+
     # --- helpers -----------------------------------------------------------
     def pending_timers(self):
         return [h for h in self._scheduled if not h._cancelled]
@@ -200,4 +220,5 @@ class SimLoop(asyncio.BaseEventLoop):
             return
         self._ready.clear()
         self._scheduled.clear()
+        self.tasks.clear()
         super().close()
